@@ -21,8 +21,8 @@ def bounded(tier, seed):
 
 MANIFEST = dict(
     category="other",
-    text="Contract-based proof of the scalar guards and of the flow-value validator on the real source + bounded enumeration of single corruptions of valid inputs for all 16 model classes against a declarative validity predicate.",
+    text='Contract-based proofs on the real source: the scalar guards on k (position, data flow, exactness for all k), the flow-value validator, the sub-path / subset constraint validators (normal return iff every constraint is a non-empty list of 2-tuples that are edges) + bounded enumeration of single corruptions of valid inputs for all 16 model classes.',
     design_ref="DESIGN.md section 3 / C19",
-    note="Structural validation inside the big constructors (graph shape, constraint lists) is decided by the bounded enumeration only. Trusted: networkx, HiGHS.",
+    note='The remaining structural validation inside the big constructors (graph shape, coverage range, weight type) is decided by the bounded enumeration only. Trusted: networkx, HiGHS.',
     technique="contract-based deductive verification of guards/validators (PyVC) + bounded corruption enumeration",
     engine="pyvc+rc")
